@@ -398,6 +398,10 @@ fn privileged_cases(sim: &Sim) -> Vec<Case> {
         Case { contract: DISPATCHER, name: "dispatcher.accept_ownership", msg: json!({"accept_ownership": {}}), funds: 0, designated: vec![dn.clone()] },
         Case { contract: DISPATCHER, name: "dispatcher.update_swap_contract", msg: json!({"update_swap_contract": {"swap_contract": SWAP}}), funds: 0, designated: vec![d_o.clone()] },
         Case { contract: DISPATCHER, name: "dispatcher.update_swap_denom", msg: json!({"update_swap_denom": {"swap_denom": "uother", "is_add": true}}), funds: 0, designated: vec![d_o.clone()] },
+        Case { contract: DISPATCHER, name: "dispatcher.update_swap_denom.remove_listed", msg: json!({"update_swap_denom": {"swap_denom": DENOM, "is_add": false}}), funds: 0, designated: vec![d_o.clone()] },
+        Case { contract: DISPATCHER, name: "dispatcher.update_swap_denom.remove_listed_extra", msg: json!({"update_swap_denom": {"swap_denom": EXTRA_SWAP_DENOM, "is_add": false}}), funds: 0, designated: vec![d_o.clone()] },
+        Case { contract: DISPATCHER, name: "dispatcher.update_swap_denom.add_listed", msg: json!({"update_swap_denom": {"swap_denom": REWARD_DENOM, "is_add": true}}), funds: 0, designated: vec![d_o.clone()] },
+        Case { contract: DISPATCHER, name: "dispatcher.update_config.rate", msg: json!({"update_config": {"krp_keeper_rate": "0.5"}}), funds: 0, designated: vec![d_o.clone()] },
         Case { contract: DISPATCHER, name: "dispatcher.update_oracle_contract", msg: json!({"update_oracle_contract": {"oracle_contract": ORACLE}}), funds: 0, designated: vec![d_o.clone()] },
         Case { contract: REWARD, name: "reward.update_config", msg: json!({"update_config": {"swap_contract": SWAP}}), funds: 0, designated: vec![ro.clone()] },
         Case { contract: REWARD, name: "reward.set_owner", msg: json!({"set_owner": {"new_owner_addr": rn}}), funds: 0, designated: vec![ro.clone()] },
@@ -407,6 +411,8 @@ fn privileged_cases(sim: &Sim) -> Vec<Case> {
         Case { contract: REWARD, name: "reward.increase_balance", msg: json!({"increase_balance": {"address": INTRUDER, "amount": "1000"}}), funds: 0, designated: reg_bsei.clone() },
         Case { contract: REWARD, name: "reward.decrease_balance", msg: json!({"decrease_balance": {"address": "user0", "amount": "0"}}), funds: 0, designated: reg_bsei.clone() },
         Case { contract: REWARD, name: "reward.update_swap_denom", msg: json!({"update_swap_denom": {"swap_denom": "uother", "is_add": true}}), funds: 0, designated: vec![ro.clone()] },
+        Case { contract: REWARD, name: "reward.update_swap_denom.remove_listed", msg: json!({"update_swap_denom": {"swap_denom": EXTRA_SWAP_DENOM, "is_add": false}}), funds: 0, designated: vec![ro.clone()] },
+        Case { contract: REWARD, name: "reward.update_config.denom", msg: json!({"update_config": {"reward_denom": REWARD_DENOM}}), funds: 0, designated: vec![ro.clone()] },
         Case { contract: REGISTRY, name: "registry.add_validator", msg: json!({"add_validator": {"validator": {"address": a_val}}}), funds: 0, designated: vec![go.clone(), s(HUB)] },
         Case { contract: REGISTRY, name: "registry.remove_validator", msg: json!({"remove_validator": {"address": reg_val}}), funds: 0, designated: vec![go.clone()] },
         Case { contract: REGISTRY, name: "registry.update_config", msg: json!({"update_config": {"hub_contract": HUB}}), funds: 0, designated: vec![go.clone()] },
